@@ -8,8 +8,8 @@ from vt import worlds
 ID = 'C08'
 LEVEL = 'exploration'
 RULE = ('pure part: every list of <=L patterns (with repetition, so every '
-        'order and duplicate occurs) over 14 regexes x {plain, !-negated} '
-        'evaluated on 13 names by the real build_filtering_func and compared '
+        'order and duplicate occurs) over 18 regexes (anchors, alternations, empty, never-matching, classes, inline flags, numbered and named back-references) x {plain, !-negated} '
+        'evaluated on 16 names by the real build_filtering_func and compared '
         'with an independent re.search-based spec; plus order independence, '
         'duplicate insensitivity, "adding !p never selects", "adding a '
         'positive never deselects (when a positive is already present)". '
@@ -21,17 +21,20 @@ ASSUMPTIONS = [
     'names are non-empty (test ids, module and layer names cannot be empty)',
     'the "adding a positive pattern never deselects" consequence is only demanded when the list already has a positive pattern: with only negated patterns the first positive pattern replaces the implicit "." and the statement\'s own iff allows deselection there',
 ]
-BOUND = {'quick': 'L<=3 (28^1+28^2+28^3 lists x 13 names); end-to-end lists <=2',
-         'thorough': 'L<=4 (28^4 more lists); end-to-end lists <=3'}
+BOUND = {'quick': 'L<=3 (36^1+36^2+36^3 lists x 16 names); end-to-end lists <=2',
+         'thorough': 'L<=4 (36^4 more lists); end-to-end lists <=3'}
 CHUNK = 8
 
 PATS = ['a', 'b', '^a', 'a$', 'a|b', '.', '', 'x', 'a.c', '^a|b', 'c|^b',
-        '^(a|b)$', 'b$|^c', '[ab]c']
+        '^(a|b)$', 'b$|^c', '[ab]c',
+        # patterns that are only right when compiled on their own: inline
+        # flags, numbered and named groups with back-references
+        '(?i)B', r'(b)\1', '(?P<g>a)(?P=g)', '(?s)a.b']
 NAMES = ['a', 'b', 'ab', 'ba', 'abc', 'a.c', 'xa', 'c', 'A', 'a\nb', 'cb',
-         'xb', 'bc']
+         'xb', 'bc', 'bb', 'aa', 'Bc']
 
 T_PATS = ['q1', 'q1 ', '^test_q1 ', 'q0|q10', '^test_q0|q2', 'T_q2', 'nomatch',
-          r'\.test_q1$|q0 ', '']
+          r'\.test_q1$|q0 ', '', '(?i)TEST_Q2 ', r'(q1) .*\1\)']
 L_PATS = ['A', 'A$', 'AB', r'tests\.A$|B$', '^vtw', 'B$', 'nomatch', 'UnitTests',
           '^zope|AB$']
 
@@ -92,6 +95,32 @@ LNAME = {None: 'zope.testrunner.layer.UnitTests', 'A': 'vtw.tests.A',
          'AB': 'vtw.tests.AB'}
 
 
+class _Raises:
+    """Stands in for a filter that could not even be built / called."""
+
+    def __init__(self, exc):
+        self.exc = exc
+
+    def __call__(self, name):
+        return 'raises %r' % (self.exc,)
+
+
+def _bff(lst, viol, orig):
+    try:
+        f = build_filtering_func(lst)
+    except Exception as e:
+        viol.append(('exception', 'build_filtering_func(%r): %r' % (lst, e), orig, None))
+        return _Raises(e)
+
+    def call(name):
+        try:
+            return bool(f(name))
+        except Exception as e:
+            viol.append(('exception', 'filter(%r)(%r): %r' % (lst, name, e), orig, name))
+            return 'raises'
+    return call
+
+
 def run_pure(ln, first, second):
     ap = all_pats()
     viol = []
@@ -101,10 +130,8 @@ def run_pure(ln, first, second):
     rest = ln - len(fixed)
     for tail in itertools.product(ap, repeat=rest):
         lst = fixed + list(tail)
-        try:
-            acc = build_filtering_func(lst)
-        except Exception as e:
-            viol.append(('exception', repr(e), lst, None))
+        acc = _bff(lst, viol, lst)
+        if isinstance(acc, _Raises):
             continue
         has_pos = any(not p.startswith('!') for p in lst)
         if len(lst) >= 2 or any(p.startswith('!') for p in lst):
@@ -112,7 +139,7 @@ def run_pure(ln, first, second):
         got = []
         for name in NAMES:
             evals += 1
-            g = bool(acc(name))
+            g = acc(name)
             got.append(g)
             w = spec_accept(lst, name)
             if g != w:
@@ -122,19 +149,21 @@ def run_pure(ln, first, second):
             for perm in itertools.permutations(lst):
                 if list(perm) == lst:
                     continue
-                a2 = build_filtering_func(list(perm))
+                a2 = _bff(list(perm), viol, lst)
                 for name, g in zip(NAMES, got):
-                    if bool(a2(name)) != g:
+                    if a2(name) != g:
                         viol.append(('order_dependence', str(list(perm)), lst, name))
-            a3 = build_filtering_func(lst + lst)
+            a3 = _bff(lst + lst, viol, lst)
             for name, g in zip(NAMES, got):
-                if bool(a3(name)) != g:
+                if a3(name) != g:
                     viol.append(('duplicate_sensitivity', '', lst, name))
         if ln <= 2:
             for extra in ap:
-                a4 = build_filtering_func(lst + [extra])
+                a4 = _bff(lst + [extra], viol, lst)
                 for name, g in zip(NAMES, got):
-                    g4 = bool(a4(name))
+                    g4 = a4(name)
+                    if g4 not in (True, False):
+                        continue
                     if extra.startswith('!') and g4 and not g:
                         viol.append(('negated_pattern_selected', extra, lst, name))
                     if not extra.startswith('!') and has_pos and g and not g4:
